@@ -252,31 +252,32 @@ theorem entailsF_big (fuel : Nat) (a b : Policy) (h : nTerminals a > 20) :
     entailsF (fuel + 1) a b = .none := by
   simp [entailsF, ENTAILMENT_MAX_TERMINALS, h]
 
-theorem entailsF_unsat (fuel : Nat) (b : Policy) : entailsF (fuel + 1) .unsat b = .some true := by
-  simp [entailsF, ENTAILMENT_MAX_TERMINALS, nTerminals]
-
-theorem entailsF_trivial (fuel : Nat) (b : Policy) :
-    entailsF (fuel + 1) .trivial b = .some (isTrivial b) := by
-  cases b <;> simp [entailsF, ENTAILMENT_MAX_TERMINALS, nTerminals, isTrivial]
-
-theorem entailsF_to_unsat (fuel : Nat) (a : Policy) (ha : isConst a = false)
-    (h : nTerminals a ≤ 20) : entailsF (fuel + 1) a .unsat = .some false := by
-  have : ¬ (20 < nTerminals a) := by omega
-  cases a <;> simp_all [entailsF, ENTAILMENT_MAX_TERMINALS, isConst, isTrivial, isUnsat]
-
-theorem entailsF_rec (fuel : Nat) (a b : Policy) (ha : isConst a = false)
-    (hb : isUnsat b = false) (h : nTerminals a ≤ 20) :
-    entailsF (fuel + 1) a b =
-      (entailsF fuel
-          (satisfyConstraint (firstConstraint (normalized a)) true (normalized a))
-          (satisfyConstraint (firstConstraint (normalized a)) true (normalized b))).andThen
-        (fun _ => entailsF fuel
-          (satisfyConstraint (firstConstraint (normalized a)) false (normalized a))
-          (satisfyConstraint (firstConstraint (normalized a)) false (normalized b))) := by
+theorem entailsF_small (fuel : Nat) (a b : Policy) (h : nTerminals a ≤ 20) :
+    entailsF (fuel + 1) a b = entailsStep (entailsF fuel) (normalized a) (normalized b) := by
   have hn : ¬ (nTerminals a > ENTAILMENT_MAX_TERMINALS) := by
     simp only [ENTAILMENT_MAX_TERMINALS]; omega
-  cases a <;> cases b <;> simp [isConst, isTrivial, isUnsat] at ha hb <;>
-    simp only [entailsF, if_neg hn]
+  simp only [entailsF, if_neg hn]
+
+theorem entailsStep_unsat (rec : Policy → Policy → EntRes) (b : Policy) :
+    entailsStep rec .unsat b = .some true := by
+  simp [entailsStep]
+
+theorem entailsStep_trivial (rec : Policy → Policy → EntRes) (b : Policy) :
+    entailsStep rec .trivial b = .some (isTrivial b) := by
+  cases b <;> simp [entailsStep, isTrivial]
+
+theorem entailsStep_to_unsat (rec : Policy → Policy → EntRes) (a : Policy)
+    (ha : isConst a = false) : entailsStep rec a .unsat = .some false := by
+  cases a <;> simp_all [entailsStep, isConst, isTrivial, isUnsat]
+
+theorem entailsStep_rec (rec : Policy → Policy → EntRes) (a b : Policy) (ha : isConst a = false)
+    (hb : isUnsat b = false) :
+    entailsStep rec a b =
+      (rec (satisfyConstraint (firstConstraint a) true a)
+          (satisfyConstraint (firstConstraint a) true b)).andThen
+        (fun _ => rec (satisfyConstraint (firstConstraint a) false a)
+          (satisfyConstraint (firstConstraint a) false b)) := by
+  cases a <;> cases b <;> simp [isConst, isTrivial, isUnsat] at ha hb <;> simp only [entailsStep]
 
 theorem isConst_satisfyConstraint (w : Policy) (β : Bool) {p : Policy} (h : isConst p = true) :
     isConst (satisfyConstraint w β p) = true := by
@@ -289,51 +290,51 @@ theorem isConst_satisfyConstraint (w : Policy) (β : Bool) {p : Policy} (h : isC
 /-! ## fuel suffices -/
 
 theorem entailsF_some : ∀ (fuel : Nat) (a b : Policy), nTerminals a ≤ 20 →
-    ((isConst a = true ∧ 1 ≤ fuel) ∨ nTerminals (normalized a) + 2 ≤ fuel) →
+    ((isConst (normalized a) = true ∧ 1 ≤ fuel) ∨ nTerminals (normalized a) + 2 ≤ fuel) →
     ∃ r, entailsF fuel a b = .some r := by
   intro fuel
   induction fuel with
   | zero => intro a b _ h; rcases h with ⟨_, h⟩ | h <;> omega
   | succ fuel ih =>
     intro a b hsz hf
-    by_cases hca : isConst a = true
-    · cases a with
-      | unsat => exact ⟨_, entailsF_unsat _ _⟩
-      | trivial => exact ⟨_, entailsF_trivial _ _⟩
+    rw [entailsF_small _ _ _ hsz]
+    have hnf := normalized_NF a
+    have hle := nTerminals_normalized a
+    generalize normalized a = aN at hf hnf hle
+    by_cases hca : isConst aN = true
+    · cases aN with
+      | unsat => exact ⟨_, entailsStep_unsat _ _⟩
+      | trivial => exact ⟨_, entailsStep_trivial _ _⟩
       | atom x => simp [isConst, isTrivial, isUnsat] at hca
       | thresh k ss => simp [isConst, isTrivial, isUnsat] at hca
-    · have hca : isConst a = false := by simpa using hca
-      have hf : nTerminals (normalized a) + 2 ≤ fuel + 1 := by
+    · have hca : isConst aN = false := by simpa using hca
+      have hf : nTerminals aN + 2 ≤ fuel + 1 := by
         rcases hf with ⟨h, _⟩ | h
         · rw [hca] at h; simp at h
         · exact h
-      by_cases hub : isUnsat b = true
-      · cases b <;> simp [isUnsat] at hub
-        exact ⟨_, entailsF_to_unsat _ _ hca hsz⟩
-      · have hub : isUnsat b = false := by simpa using hub
-        rw [entailsF_rec _ _ _ hca hub hsz]
-        have hnf := normalized_NF a
-        have hle := nTerminals_normalized a
+      by_cases hub : isUnsat (normalized b) = true
+      · have : normalized b = .unsat := by
+          cases hb : normalized b <;> simp [hb, isUnsat] at hub
+          rfl
+        rw [this]
+        exact ⟨_, entailsStep_to_unsat _ _ hca⟩
+      · have hub : isUnsat (normalized b) = false := by simpa using hub
+        rw [entailsStep_rec _ _ _ hca hub]
         -- both recursive calls have enough fuel
         have hrec : ∀ β b', ∃ r, entailsF fuel
-            (satisfyConstraint (firstConstraint (normalized a)) β (normalized a)) b' = .some r := by
+            (satisfyConstraint (firstConstraint aN) β aN) b' = .some r := by
           intro β b'
+          have hfix := normalized_of_NF _ (satisfyConstraint_NF (firstConstraint aN) β aN)
           apply ih
-          · have := nTerminals_satisfyConstraint (firstConstraint (normalized a)) β (normalized a)
+          · have := nTerminals_satisfyConstraint (firstConstraint aN) β aN
             omega
-          · by_cases hc1 : isConst (satisfyConstraint (firstConstraint (normalized a)) β
-                (normalized a)) = true
+          · rw [hfix]
+            by_cases hc1 : isConst (satisfyConstraint (firstConstraint aN) β aN) = true
             · left; exact ⟨hc1, by omega⟩
             · right
-              rw [normalized_of_NF _ (satisfyConstraint_NF _ _ _)]
-              have hcN : isConst (normalized a) = false := by
-                cases h : isConst (normalized a)
-                · rfl
-                · exact absurd (isConst_satisfyConstraint _ β h) hc1
-              have := nTerminals_satisfyConstraint_lt β (normalized a) hnf hcN
+              have := nTerminals_satisfyConstraint_lt β aN hnf hca
               omega
-        obtain ⟨r1, h1⟩ := hrec true
-          (satisfyConstraint (firstConstraint (normalized a)) true (normalized b))
+        obtain ⟨r1, h1⟩ := hrec true (satisfyConstraint (firstConstraint aN) true (normalized b))
         rw [h1]
         cases r1
         · exact ⟨false, rfl⟩
@@ -358,27 +359,36 @@ theorem entails_none_iff (a b : Policy) : entails a b = .none ↔ nTerminals a >
       rw [hr] at h; simp at h
   · intro h; exact entailsF_big _ _ _ h
 
-/-! ## correctness on normal forms -/
+/-! ## correctness, all inputs -/
 
-theorem entailsF_correct : ∀ (fuel : Nat) (a b : Policy) (r : Bool), NF a = true → NF b = true →
+theorem implies_normalized (a b : Policy) : Implies (normalized a) (normalized b) ↔ Implies a b := by
+  simp only [Implies, normalized_holdsA]
+
+theorem entailsF_correct : ∀ (fuel : Nat) (a b : Policy) (r : Bool),
     entailsF fuel a b = .some r → (r = true ↔ Implies a b) := by
   intro fuel
   induction fuel with
-  | zero => intro a b r _ _ h; simp [entailsF] at h
+  | zero => intro a b r h; simp [entailsF] at h
   | succ fuel ih =>
-    intro a b r hna hnb h
+    intro a b r h
     by_cases hbig : nTerminals a > 20
     · rw [entailsF_big _ _ _ hbig] at h; simp at h
     have hsz : nTerminals a ≤ 20 := by omega
+    rw [entailsF_small _ _ _ hsz] at h
+    rw [← implies_normalized]
+    have hna := normalized_NF a
+    have hnb := normalized_NF b
+    generalize normalized a = a at h hna
+    generalize normalized b = b at h hnb
     by_cases hca : isConst a = true
     · cases a with
       | unsat =>
-        rw [entailsF_unsat] at h
+        rw [entailsStep_unsat] at h
         simp only [EntRes.some.injEq] at h
         subst h
         simp [Implies, holdsA]
       | trivial =>
-        rw [entailsF_trivial] at h
+        rw [entailsStep_trivial] at h
         simp only [EntRes.some.injEq] at h
         subst h
         cases hb : isTrivial b
@@ -394,7 +404,7 @@ theorem entailsF_correct : ∀ (fuel : Nat) (a b : Policy) (r : Bool), NF a = tr
     · have hca : isConst a = false := by simpa using hca
       by_cases hub : isUnsat b = true
       · cases b <;> simp [isUnsat] at hub
-        rw [entailsF_to_unsat _ _ hca hsz] at h
+        rw [entailsStep_to_unsat _ _ hca] at h
         simp only [EntRes.some.injEq] at h
         subst h
         simp only [Bool.false_eq_true, false_iff]
@@ -403,28 +413,24 @@ theorem entailsF_correct : ∀ (fuel : Nat) (a b : Policy) (r : Bool), NF a = tr
         have := himp (fun _ => true) (NF_all_true a hna hca.2)
         simp [holdsA] at this
       · have hub : isUnsat b = false := by simpa using hub
-        rw [entailsF_rec _ _ _ hca hub hsz, normalized_of_NF a hna, normalized_of_NF b hnb] at h
+        rw [entailsStep_rec _ _ _ hca hub] at h
         obtain ⟨w, hw⟩ := firstConstraint_atom a hna hca
         rw [hw] at h
         rw [implies_shannon w a b]
-        have hn1 := satisfyConstraint_NF (.atom w) true a
-        have hn2 := satisfyConstraint_NF (.atom w) true b
-        have hn3 := satisfyConstraint_NF (.atom w) false a
-        have hn4 := satisfyConstraint_NF (.atom w) false b
         cases h1 : entailsF fuel (satisfyConstraint (.atom w) true a)
             (satisfyConstraint (.atom w) true b) with
         | none => rw [h1] at h; simp [EntRes.andThen] at h
         | outOfFuel => rw [h1] at h; simp [EntRes.andThen] at h
         | some r1 =>
           rw [h1] at h
-          have i1 := ih _ _ r1 hn1 hn2 h1
+          have i1 := ih _ _ r1 h1
           cases r1
           · simp only [EntRes.andThen, EntRes.some.injEq] at h
             subst h
             simp only [Bool.false_eq_true, false_iff] at i1 ⊢
             exact fun hh => i1 hh.1
           · simp only [EntRes.andThen] at h
-            have i2 := ih _ _ r hn3 hn4 h
+            have i2 := ih _ _ r h
             rw [i2]
             have := i1.mp rfl
             exact ⟨fun hh => ⟨this, hh⟩, fun hh => hh.2⟩
